@@ -164,6 +164,10 @@ class EqualMiddleware(object):
     def __hash__(self):
         return hash(("EqualMiddleware", self.idx))
 
+    def __len__(self):
+        # a collecting middleware that has not collected anything yet is falsy; it still is a middleware
+        return 0 if self.idx % 2 == 0 else 1
+
     def __call__(self, next_, root, context, info, /, **kwargs):       # arguments may be called `self`
         self.log({"ev": "mw", "idx": self.idx, "path": tuple(info.path), "run": self.run_id})
         return next_(root, context, info, **kwargs)
